@@ -92,7 +92,8 @@ def run_program(chk, da, prog, sources, optimize, coq_cases):
     else:
         chk.traces_validated += 1
         if G is not None and len(dsk) <= 1500:
-            coq_cases.append((dsk, keys, order, numblocks, name0, desc))
+            g, ids, dangling = G.reify(dsk, keys)
+            coq_cases.append(((g, G.topo_order(g), tuple(numblocks), G.block_indices(arr.__dask_keys__()), G.out_ids(ids, keys)), desc))
 
 
 def replay(path):
@@ -116,9 +117,11 @@ def run(chk: Check):
     for i, (prog, sources, want) in enumerate(progs.gen_programs(chk.rng, n)):
         run_program(chk, da, prog, sources, optimize=(i % 2 == 0), coq_cases=coq_cases)
     if G is not None and coq_cases:
-        bad = G.coq_check_dask_graphs([(c[0], c[1], c[2], c[3]) for c in coq_cases])
+        if chk.tier == "quick":
+            coq_cases = coq_cases[:400]      # the rest is checked by the Python analysis only (coqc parsing dominates)
+        bad = G.coq_check_graphs([c[0] for c in coq_cases])
         chk.extra["graphs_checked_in_coq"] = len(coq_cases)
         for i in bad[:5]:
-            chk.tie_break("coq-checker:topo_check_b/keys_ok_b rejected a graph the Python analysis accepted", coq_cases[i][5])
+            chk.tie_break("coq-checker:graph_check_b/keys_okN_b rejected a graph the Python analysis accepted", coq_cases[i][1])
     elif G is None:
         chk.extra["graphs_checked_in_coq"] = 0
